@@ -5,7 +5,7 @@ CONSTANTS
   Kind = "nameaddr"
   Atoms <- AtomsKnown
   Prefix <- PfxABS
-  MaxLen = 10
+  MaxLen = 11
   Cfgs <- CfgsNA12
   Junk = 34
   EmitOn = TRUE
